@@ -197,7 +197,7 @@ Fixpoint needs_triple (p : alg) : bool :=
   | Extend _ q _ _ => needs_triple q
   | Values _ => false
   | Project q _ => needs_triple q
-  | Graph _ q => needs_triple q
+  | Graph _ _ => false          (* an inner GRAPH switches the active graph *)
   | Distinct q => needs_triple q
   end.
 
